@@ -19,6 +19,10 @@ import (
 	"verif/harness/vproto"
 )
 
+// kZero on the wire: NearestNeighbors(0, p) (K = 0 is NearestNeighbor); other negative K are passed
+// as they are (make panics).  Both are outside the property's k >= 1: correspondence with the model.
+const kZero = -1000
+
 func finalSize(h *rtwire.Hist) int {
 	cnt := map[int]int{}
 	n := 0
@@ -418,6 +422,7 @@ func genFar(r *vproto.Rng, par [2]int, kind string, layout int, i int) *rtwire.H
 		}
 	}
 	ask(10)
+	s.ask(0, 0, []int{kZero, -1, -7}[i%3])
 	for c := 0; c < 3 && len(s.present) > 2; c++ {
 		s.del(s.present[r.Intn(len(s.present))])
 	}
@@ -543,6 +548,25 @@ func gen(seed uint64, tier string) []*rtwire.Hist {
 		}
 		hs = append(hs, h)
 	}
+	// k = 0 and negative k (outside the property): empty slice / makeslice panic, tree untouched
+	for ki, kind := range rtwire.Kinds {
+		pool := []rtwire.Box{{MinX: 1, MinY: 1, MaxX: 1, MaxY: 1}, {MinX: 4, MinY: 0, MaxX: 4, MaxY: 0}, {MinX: 2, MinY: 5, MaxX: 2, MaxY: 5},
+			{MinX: 7, MinY: 7, MaxX: 7, MaxY: 7}, {MinX: 0, MinY: 3, MaxX: 0, MaxY: 3}, {MinX: 6, MinY: 1, MaxX: 6, MaxY: 1}}
+		h := &rtwire.Hist{Class: "nn-corpus-nonpositive-k", Min: 2, Max: 3 + ki, Kind: kind, Pool: pool,
+			Queries: []rtwire.Box{{MinX: 0, MinY: 0, MaxX: 1, MaxY: 1}}, KQs: []rtwire.KQ{}}
+		s := &st{h: h}
+		s.ask(1, 1, kZero)
+		s.ask(1, 1, -1)
+		for id := range pool {
+			s.ins(id)
+			s.ask(3, 3, kZero)
+			s.ask(3, 3, -1-id)
+			s.ask(3, 3, 2)
+		}
+		s.ask(3, 3, -1<<40)
+		s.ask(3, 3, 0)
+		hs = append(hs, h)
+	}
 	// NearestNeighbors on trees that store nothing: fresh, and emptied by deletes
 	for ki, kind := range rtwire.Kinds {
 		pool := []rtwire.Box{{MinX: 1, MinY: 1, MaxX: 2, MaxY: 2}, {MinX: 4, MinY: 0, MaxX: 4, MaxY: 0}}
@@ -665,7 +689,11 @@ func runHist(line string, out *bufio.Writer) {
 			}
 		} else {
 			var res []geom.Geom
-			if msg := vproto.Safe(func() { res = tree.NearestNeighbors(q.K, p) }); msg != "" {
+			k := q.K
+			if k == kZero {
+				k = 0
+			}
+			if msg := vproto.Safe(func() { res = tree.NearestNeighbors(k, p) }); msg != "" {
 				b.WriteString(" | knn panic " + msg)
 			} else {
 				b.WriteString(" | knn")
